@@ -353,6 +353,15 @@ func (op JumpOp) encodeJ() Opcode {
 // An Offset is a relative position in the code for jumping to.
 type Offset int16
 
+// OffsetFromInt returns an Offset encoding the given int, panicking with a
+// *LimitError if it is out of range.
+func OffsetFromInt(n int) Offset {
+	if n < math.MinInt16 || n > math.MaxInt16 {
+		panic(newLimitError("control structure too long"))
+	}
+	return Offset(n)
+}
+
 func (d Offset) encodeD() Opcode {
 	return Opcode(uint16(d))
 }
